@@ -15,8 +15,9 @@ import (
 func init() {
 	fw.Register(&fw.Prop{
 		ID: "C06",
-		Rule: "differential monitor, exact comparison (operations are value-parametric and all operand values identify their position): At on every multi-index and NElems = prod(Shape) for every tensor built; Slice with EVERY index list (each position omitted / {0,0} / any 0<=From<To<=d) for rank <= 3 and sampled index lists for rank 4-6; Patch with every source shape <= target, every offset and every omitted/{0,0}/explicit mix for rank <= 3 (sampled above); Concat along every dim of 2-4 operands with different sizes; Reshape to every shape with the same element count (rank <= 4 targets exhaustive, 5-6 sampled); Flatten/Squeeze/UnSqueeze at every dim; Broadcast to every target made of 0-2 new leading dims x each size-1 dim kept or expanded; Full/Zeros/Ones/Eye(1..6)/TensorOf at every nesting depth. " +
-			"Round-trip monitors on the real results: Slice(Patch(t,idx,s), region) = s, Slice(Concat(ts), block_i) = ts_i. Non-trivial: the result or operand has >= 2 elements; distinct = (op, shapes, argument form). Later additions: sampled shapes with sizes up to 7; forward chains of 2-8 shape / index / element-wise operations with all earlier nodes re-read at the end; the keepdims idiom on ranks 3-6; one index slice object re-used for calls on tensors of different extents; tensors that took part in rejected calls are used again.",
+		Rule: "differential monitor, exact comparison (operations are value-parametric and all operand values identify their position): At on every multi-index and NElems = prod(Shape) for every tensor built; Slice with EVERY index list (each position omitted / {0,0} / any 0<=From<To<=d) for rank <= 3 and sampled index lists for rank 4-6; Patch with every source shape <= target, every offset and every omitted/{0,0}/explicit mix for rank <= 3 (sampled above); Concat along every dim of 2-4 operands with different sizes; Reshape to every shape with the same element count (rank <= 4 targets exhaustive, 5-6 sampled); Flatten/Squeeze/UnSqueeze at every dim; Broadcast to every target made of 0-2 new leading dims x each size-1 dim kept or expanded; Full/Zeros/Ones/Eye(1..40 and sizes around 64, 128, 256; to 1000 in thorough)/TensorOf at every nesting depth. " +
+			"Round-trip monitors on the real results: Slice(Patch(t,idx,s), region) = s, Slice(Concat(ts), block_i) = ts_i. Non-trivial: the result or operand has >= 2 elements; distinct = (op, shapes, argument form). Later additions: sampled shapes with sizes up to 7; forward chains of 2-8 shape / index / element-wise operations with all earlier nodes re-read at the end; the keepdims idiom on ranks 3-6; one index slice object re-used for calls on tensors of different extents; tensors that took part in rejected calls are used again." +
+			" Round 4: constructors on 4096..5000 elements of rank 1-4.",
 		Assumptions: []string{"operands of rank <= 4 are built with TensorOf on nested slices, rank 5-6 with TensorOf(flat)+Reshape"},
 		FloorQuick:  20000, FloorThor: 100000,
 		Run: runC06,
@@ -72,7 +73,18 @@ func runC06(c *fw.Ctx) {
 		shape := shape
 		c.Case(func(k *fw.K) { c06Construct(k, shape) })
 	}
-	for n := -1; n <= 7; n++ {
+	for _, shape := range [][]int{{64, 64}, {65, 63}, {128, 33}, {2, 2048}, {4097, 1}, {1, 4099}, {16, 16, 17}, {8, 8, 8, 9}, {100, 41}, {3, 1366}, {4096}, {5000}} {
+		shape := shape // constructors at and beyond a few thousand elements
+		c.Case(func(k *fw.K) { c06Construct(k, shape) })
+	}
+	eyes := []int{-1, 0, 63, 64, 65, 66, 96, 100, 127, 128, 129, 200, 256}
+	for n := 1; n <= 40; n++ {
+		eyes = append(eyes, n)
+	}
+	if !c.Quick() {
+		eyes = append(eyes, 257, 300, 511, 512, 513, 1000)
+	}
+	for _, n := range eyes {
 		n := n
 		c.Case(func(k *fw.K) { c06Eye(k, n) })
 	}
